@@ -35,6 +35,52 @@ type C19Case struct {
 	Scenario string     `json:"scenario"` // inplace, outdir, outdir-force, single, pipe, no-overwrite, same-file, rm, rm-kill
 	KillMs   int        `json:"kill_ms,omitempty"`   // rm-kill: delay before SIGKILL in microseconds-ish units (scaled by the measured duration)
 	KillFrac int        `json:"kill_frac,omitempty"` // rm-kill: per-mille of the measured duration
+	// InSpell: how the input directory is spelled on the command line (tree scenarios): "" = "src", "dot-slash" = "./src",
+	// "trailing-slash" = "src/", "dot-slash-trailing" = "./src/", "abs" = absolute path, "dotdot" = "src/../src",
+	// "double-slash" = "src//", "cwd-dot" = "." with the tool started inside the directory, "norec" = "src/." (documented: no recursion)
+	InSpell string `json:"in_spell,omitempty"`
+}
+
+// spellDir returns the command-line spelling of directory name (relative to work) and the working directory to use.
+func spellDir(work, name, spell string) (arg, cwd string) {
+	switch spell {
+	case "dot-slash":
+		return "./" + name, work
+	case "trailing-slash":
+		return name + "/", work
+	case "dot-slash-trailing":
+		return "./" + name + "/", work
+	case "abs":
+		return filepath.Join(work, name), work
+	case "dotdot":
+		return name + "/../" + name, work
+	case "double-slash":
+		return name + "//", work
+	case "cwd-dot":
+		return ".", filepath.Join(work, name)
+	case "norec":
+		return name + "/.", work
+	}
+	return name, work
+}
+
+// relTo rewrites a path relative to work for a tool started in cwd.
+func relTo(work, cwd, p string) string {
+	if cwd == work {
+		return p
+	}
+	return filepath.Join(work, p)
+}
+
+// topLevelOnly keeps the files that lie directly in the tree root (what "dir/." addresses).
+func topLevelOnly(content map[string][]byte) map[string][]byte {
+	out := map[string][]byte{}
+	for k, v := range content {
+		if !strings.Contains(k, "/") {
+			out[k] = v
+		}
+	}
+	return out
 }
 
 func cliPath() string { return os.Getenv("VERIF_CLI") }
@@ -167,14 +213,35 @@ func runC19(r *vrt.Run, c C19Case, work string) (o c19Out) {
 	show := func(res cliRes) string {
 		return fmt.Sprintf("exit %d; stdout: %s; stderr: %s", res.rc, firstLines(strings.TrimSpace(res.out), 6), firstLines(strings.TrimSpace(res.err), 12))
 	}
+	if c.InSpell == "norec" && len(topLevelOnly(content)) == 0 {
+		// "dir/." addresses the files directly in dir: there is none, the tool legitimately finds nothing to do
+		o.label = "skipped:no-top-level-file"
+		return
+	}
 	switch c.Scenario {
 	case "inplace":
-		res := runCLI(work, nil, append(cargs, "-i", "src")...)
+		inArg, cwd := spellDir(work, "src", c.InSpell)
+		res := runCLI(cwd, nil, append(cargs, "-i", inArg)...)
 		if res.rc != 0 {
-			o.msg = "compressing the tree in place failed: " + show(res)
+			o.msg = fmt.Sprintf("compressing the tree in place (-i %s) failed: %s", inArg, show(res))
 			return
 		}
 		after := readTree(src)
+		if c.InSpell == "norec" {
+			for k := range content {
+				if strings.Contains(k, "/") {
+					if _, ok := after[k+".knz"]; ok {
+						o.msg = fmt.Sprintf("-i %s (no recursion) compressed %q in a sub-directory", inArg, k)
+						return
+					}
+				}
+			}
+			content = topLevelOnly(content)
+			if len(content) == 0 {
+				o.label = "skipped:no-top-level-file"
+				return
+			}
+		}
 		for k, v := range content {
 			if !bytes.Equal(after[k], v) {
 				o.msg = fmt.Sprintf("input file %q was modified by the compression run", k)
@@ -194,9 +261,13 @@ func runC19(r *vrt.Run, c C19Case, work string) (o c19Out) {
 				return
 			}
 		}
-		res = runCLI(work, nil, "-d", "-v", "0", "-j", dj, "-i", "comp")
+		dArg, dcwd := spellDir(work, "comp", c.InSpell)
+		if c.InSpell == "norec" {
+			dArg, dcwd = "comp", work
+		}
+		res = runCLI(dcwd, nil, "-d", "-v", "0", "-j", dj, "-i", dArg)
 		if res.rc != 0 {
-			o.msg = "decompressing the tree failed: " + show(res)
+			o.msg = fmt.Sprintf("decompressing the tree (-i %s) failed: %s", dArg, show(res))
 			return
 		}
 		got := readTree(comp)
@@ -208,31 +279,62 @@ func runC19(r *vrt.Run, c C19Case, work string) (o c19Out) {
 		if d := treeDiff(content, got); d != "" {
 			o.msg = "tree not restored: " + d
 		}
-	case "outdir", "outdir-force":
+	case "outdir", "outdir-force", "force-over-existing":
 		os.MkdirAll(filepath.Join(work, "out"), 0o755)
 		os.MkdirAll(filepath.Join(work, "back"), 0o755)
-		a := append(cargs, "-i", "src", "-o", "out")
-		d := []string{"-d", "-v", "0", "-j", dj, "-i", "out", "-o", "back"}
-		if c.Scenario == "outdir-force" {
+		inArg, cwd := spellDir(work, "src", c.InSpell)
+		a := append(cargs, "-i", inArg, "-o", relTo(work, cwd, "out"))
+		dArg, dcwd := spellDir(work, "out", c.InSpell)
+		if c.InSpell == "norec" {
+			dArg, dcwd = "out", work
+		}
+		d := []string{"-d", "-v", "0", "-j", dj, "-i", dArg, "-o", relTo(work, dcwd, "back")}
+		want := content
+		if c.InSpell == "norec" {
+			want = topLevelOnly(content)
+			if len(want) == 0 {
+				o.label = "skipped:no-top-level-file"
+				return
+			}
+		}
+		if c.Scenario != "outdir" {
 			a = append(a, "-f")
 			d = append(d, "-f")
 		}
-		res := runCLI(work, nil, a...)
+		if c.Scenario == "force-over-existing" {
+			// every output already exists and is LONGER than what will be written: -f must replace it entirely
+			for k, v := range want {
+				for _, pre := range []string{filepath.Join(work, "out", k+".knz"), filepath.Join(work, "back", k)} {
+					os.MkdirAll(filepath.Dir(pre), 0o755)
+					os.WriteFile(pre, bytes.Repeat([]byte("stale previous content "), (len(v)+60000)/23+1), 0o644)
+				}
+			}
+		}
+		res := runCLI(cwd, nil, a...)
 		if res.rc != 0 {
-			o.msg = "compressing the tree into an output directory failed: " + show(res)
+			o.msg = fmt.Sprintf("compressing the tree into an output directory (-i %s) failed: %s", inArg, show(res))
 			return
 		}
 		if d2 := treeDiff(content, readTree(src)); d2 != "" {
 			o.msg = "inputs changed by the compression run: " + d2
 			return
 		}
-		res = runCLI(work, nil, d...)
+		if c.Scenario == "force-over-existing" {
+			for k, v := range want {
+				dec, err := decodeFile(filepath.Join(work, "out", k+".knz"))
+				if err != nil || !bytes.Equal(dec, v) {
+					o.msg = fmt.Sprintf("-f over a longer existing output: %q does not decode to its source (%v)", k+".knz", err)
+					return
+				}
+			}
+		}
+		res = runCLI(dcwd, nil, d...)
 		if res.rc != 0 {
-			o.msg = "decompressing the output directory failed: " + show(res)
+			o.msg = fmt.Sprintf("decompressing the output directory (-i %s) failed: %s", dArg, show(res))
 			return
 		}
-		if d2 := treeDiff(content, readTree(filepath.Join(work, "back"))); d2 != "" {
-			o.msg = "tree not restored through -o directories: " + d2
+		if d2 := treeDiff(want, readTree(filepath.Join(work, "back"))); d2 != "" {
+			o.msg = fmt.Sprintf("tree not restored through -o directories (input spelled %q): %s", inArg, d2)
 		}
 	case "single", "pipe":
 		f := c.Tree[0]
@@ -336,6 +438,151 @@ func runC19(r *vrt.Run, c C19Case, work string) (o c19Out) {
 				return
 			}
 		}
+	case "single-implicit":
+		// one file addressed by its bare name from inside its directory, output names left to the tool
+		f := c.Tree[0]
+		dir := filepath.Join(src, filepath.Dir(f.Path))
+		base := filepath.Base(f.Path)
+		res := runCLI(dir, nil, append(cargs, "-i", base)...)
+		if res.rc != 0 {
+			o.msg = fmt.Sprintf("compressing %q by its bare name failed: %s", base, show(res))
+			return
+		}
+		if err := os.Rename(filepath.Join(dir, base), filepath.Join(dir, base+".orig")); err != nil {
+			o.label = "skipped:cannot-rename"
+			return
+		}
+		dargs := []string{"-d", "-v", "0", "-j", dj, "-i", base + ".knz"}
+		if c.KillFrac%2 == 1 {
+			dargs = append(dargs, "--rm")
+		}
+		res = runCLI(dir, nil, dargs...)
+		if res.rc != 0 {
+			o.msg = fmt.Sprintf("decompressing %q failed: %s", base+".knz", show(res))
+			return
+		}
+		got, err := os.ReadFile(filepath.Join(dir, base))
+		if err != nil || !bytes.Equal(got, content[f.Path]) {
+			_, e2 := os.Stat(filepath.Join(dir, base+".knz"))
+			o.msg = fmt.Sprintf("%v exited 0 but %q was not restored (%v; %d bytes vs %d); archive still present: %v", dargs, base, err, len(got), len(content[f.Path]), e2 == nil)
+		}
+	case "rm-devfull":
+		// the output can never be written (/dev/full rejects every write): --rm must leave the source alone
+		if _, err := os.Stat("/dev/full"); err != nil {
+			o.label = "skipped:no-dev-full"
+			return
+		}
+		f := c.Tree[0]
+		in := filepath.Join("src", f.Path)
+		res := runCLI(work, nil, append(cargs, "--rm", "-f", "-i", in, "-o", "/dev/full")...)
+		now, err := os.ReadFile(filepath.Join(work, in))
+		if err != nil || !bytes.Equal(now, content[f.Path]) {
+			o.msg = fmt.Sprintf("compression with --rm to an output that rejects every write (exit %d) removed or changed the source (%v)", res.rc, err)
+			return
+		}
+		res = runCLI(work, nil, append(cargs, "-i", in, "-o", "one.knz")...)
+		if res.rc != 0 {
+			o.msg = "compressing one file failed: " + show(res)
+			return
+		}
+		arch, _ := os.ReadFile(filepath.Join(work, "one.knz"))
+		res = runCLI(work, nil, "-d", "-v", "0", "-j", dj, "--rm", "-f", "-i", "one.knz", "-o", "/dev/full")
+		now, err = os.ReadFile(filepath.Join(work, "one.knz"))
+		if len(content[f.Path]) > 0 && (err != nil || !bytes.Equal(now, arch)) {
+			o.msg = fmt.Sprintf("decompression with --rm to an output that rejects every write (exit %d) removed or changed the archive (%v): the %d bytes of the file are lost", res.rc, err, len(content[f.Path]))
+			return
+		}
+		o.nontrivial = len(content[f.Path]) > 0
+	case "rm-fifo":
+		// the output is a FIFO whose reader stalls: the tool cannot have completed its output while bytes are
+		// still in flight, so the source may only disappear once everything has been handed to the pipe
+		f := c.Tree[0]
+		in := filepath.Join("src", f.Path)
+		fifo := filepath.Join(work, "pipe")
+		if err := syscall.Mkfifo(fifo, 0o644); err != nil {
+			o.label = "skipped:no-fifo"
+			return
+		}
+		decompress := c.KillFrac%2 == 1
+		srcPath := filepath.Join(work, in)
+		args := append(cargs, "--rm", "-f", "-i", in, "-o", "pipe")
+		if decompress {
+			res := runCLI(work, nil, append(cargs, "-i", in, "-o", "one.knz")...)
+			if res.rc != 0 {
+				o.msg = "compressing one file failed: " + show(res)
+				return
+			}
+			srcPath = filepath.Join(work, "one.knz")
+			args = []string{"-d", "-v", "0", "-j", dj, "--rm", "-f", "-i", "one.knz", "-o", "pipe"}
+		}
+		rd, err := os.OpenFile(fifo, os.O_RDWR, 0)
+		if err != nil {
+			o.label = "skipped:cannot-open-fifo"
+			return
+		}
+		defer rd.Close()
+		cmd := exec.Command(cliPath(), args...)
+		cmd.Dir = work
+		var eb bytes.Buffer
+		cmd.Stderr = &eb
+		if err := cmd.Start(); err != nil {
+			o.label = "skipped:cannot-start"
+			return
+		}
+		done := make(chan struct{})
+		go func() { cmd.Wait(); close(done) }()
+		exited := func() bool {
+			select {
+			case <-done:
+				return true
+			default:
+				return false
+			}
+		}
+		gone := func() bool { _, e := os.Lstat(srcPath); return e != nil }
+		// stall: do not read; watch the source
+		goneWhileStalled := false
+		for t0 := time.Now(); time.Since(t0) < time.Duration(300+c.KillFrac)*time.Millisecond && !exited(); time.Sleep(time.Millisecond) {
+			if gone() {
+				goneWhileStalled = true
+				break
+			}
+		}
+		if goneWhileStalled && !exited() {
+			cmd.Process.Signal(syscall.SIGKILL) // the moment "the process may be killed"
+		}
+		// drain what was handed to the pipe
+		var got []byte
+		buf := make([]byte, 1<<16)
+		idle := 0
+		for idle < 3 {
+			rd.SetReadDeadline(time.Now().Add(60 * time.Millisecond))
+			n, _ := rd.Read(buf)
+			got = append(got, buf[:n]...)
+			if n == 0 && exited() {
+				idle++
+			}
+		}
+		<-done
+		if gone() {
+			dec := got
+			var derr error
+			if !decompress {
+				tmp := filepath.Join(work, "from-pipe.knz")
+				os.WriteFile(tmp, got, 0o644)
+				dec, derr = decodeFile(tmp)
+			}
+			if derr != nil || !bytes.Equal(dec, content[f.Path]) {
+				o.msg = fmt.Sprintf("--rm with a stalled output pipe (%s): the source was removed (while the reader was stalled: %v) but only %d bytes had been handed to the pipe, which do not restore the %d-byte file (%v): data lost if the process dies at that moment",
+					map[bool]string{true: "decompression", false: "compression"}[decompress], goneWhileStalled, len(got), len(content[f.Path]), derr)
+				return
+			}
+		} else if now, err := os.ReadFile(srcPath); err != nil || (!decompress && !bytes.Equal(now, content[f.Path])) {
+			o.msg = fmt.Sprintf("--rm with a stalled output pipe: the source changed (%v)", err)
+			return
+		}
+		o.nontrivial = len(got) > 1<<16 || goneWhileStalled
+		o.label = fmt.Sprintf("fifo:gone-while-stalled=%v", goneWhileStalled)
 	case "rm-kill":
 		// measure, then kill a fresh identical run after a fraction of that duration
 		ref := filepath.Join(work, "ref")
@@ -387,6 +634,12 @@ func c19Eval(r *vrt.Run, c C19Case, work string) c19Out {
 	o := runC19(r, c, work)
 	r.InflightDone()
 	labels := []string{"scenario:" + c.Scenario, o.label, fmt.Sprintf("files:%d", min(len(c.Tree), 10))}
+	if c.InSpell != "" {
+		labels = append(labels, "input-spelled:"+c.InSpell)
+	}
+	if len(c.Tree) > 100 {
+		labels = append(labels, "files:>100")
+	}
 	for i, a := range c.Opts {
 		if a == "-l" && i+1 < len(c.Opts) {
 			labels = append(labels, "level:"+c.Opts[i+1])
@@ -399,14 +652,20 @@ func c19Eval(r *vrt.Run, c C19Case, work string) c19Out {
 	if o.nontrivial && r.WantSample() {
 		var files []string
 		for _, f := range c.Tree {
+			if len(files) >= 12 {
+				files = append(files, fmt.Sprintf("... %d files in all", len(c.Tree)))
+				break
+			}
 			files = append(files, fmt.Sprintf("%s (%s)", f.Path, f.Data.String()))
 		}
-		r.Sample(map[string]any{"scenario": c.Scenario, "opts": strings.Join(c.Opts, " "), "decompress_jobs": c.DJobs, "files": files, "kill_frac_permille": c.KillFrac})
+		r.Sample(map[string]any{"scenario": c.Scenario, "opts": strings.Join(c.Opts, " "), "decompress_jobs": c.DJobs, "input_spelling": c.InSpell, "files": files, "kill_frac_permille": c.KillFrac})
 	}
 	return o
 }
 
-var c19Names = []string{"a.txt", "data.bin", "with space.dat", "x.y.z", "archive.knz", "noext", "UPPER.TXT", ".hidden", "long_name_0123456789_abcdefghij.log", "é-utf8.txt"}
+var c19Names = []string{"a.txt", "data.bin", "with space.dat", "x.y.z", "archive.knz", "noext", "UPPER.TXT", ".hidden", "long_name_0123456789_abcdefghij.log", "é-utf8.txt",
+	"none", "stdout", "NONE", "b"}
+var c19Spells = []string{"", "", "dot-slash", "trailing-slash", "dot-slash-trailing", "abs", "dotdot", "double-slash", "cwd-dot", "norec"}
 var c19Dirs = []string{"", "", "sub", "sub/deeper", "other dir", "sub/deeper/deepest"}
 
 func drawC19(t *rapid.T, maxFile int, scenarios []string) C19Case {
@@ -434,6 +693,17 @@ func drawC19(t *rapid.T, maxFile int, scenarios []string) C19Case {
 	}
 	if len(c.Tree) == 0 {
 		c.Tree = []TreeFile{{Path: "a.txt", Data: gen.Recipe{Kind: gen.KText, Len: 5000, Seed: 1}}}
+	}
+	switch c.Scenario {
+	case "inplace", "outdir", "outdir-force", "force-over-existing":
+		c.InSpell = rapid.SampledFrom(c19Spells).Draw(t, "inSpell")
+		if rapid.IntRange(0, 11).Draw(t, "many") == 0 {
+			// a large tree of tiny files: more files than any internal queue or worker pool
+			many := rapid.IntRange(100, 400).Draw(t, "nmany")
+			for i := 0; i < many; i++ {
+				c.Tree = append(c.Tree, TreeFile{Path: fmt.Sprintf("m%02d/f%03d.txt", i%7, i), Data: gen.Recipe{Kind: gen.KText, Len: (i * 37) % 300, Seed: uint64(i)}})
+			}
+		}
 	}
 	heavy := false
 	if rapid.Bool().Draw(t, "useLevel") {
@@ -503,8 +773,8 @@ func TestC19(t *testing.T) {
 	if r.ReplayOnly() {
 		return
 	}
-	r.Rapid(t, "round-trips-and-safety", 110, 3000, func(t *rapid.T) {
-		c := drawC19(t, r.Pick(200*1024, 3<<20), []string{"inplace", "inplace", "outdir", "outdir-force", "single", "pipe", "no-overwrite", "same-file", "rm"})
+	r.Rapid(t, "round-trips-and-safety", 150, 4000, func(t *rapid.T) {
+		c := drawC19(t, r.Pick(200*1024, 3<<20), []string{"inplace", "inplace", "outdir", "outdir-force", "force-over-existing", "single", "single-implicit", "pipe", "no-overwrite", "same-file", "rm", "rm-devfull", "rm-fifo"})
 		if o := c19Eval(r, c, work); o.msg != "" {
 			r.Violation(t, "cli", c, "%s", o.msg)
 		}
